@@ -283,8 +283,101 @@ fn window_case(rec: &mut Rec, _ctx: &Ctx, idx: u64, rng: &mut ChaCha20Rng) {
   }
 }
 
+/// An attacker who knows only PART of the victim's measurement (a prefix, all but the
+/// last byte, the text up to its case or padding) submits reports of measurements of
+/// its own choosing: together with the victim's single report they must not open the
+/// victim's payload, and neither must the attacker's own key.
+fn related_case(rec: &mut Rec, _ctx: &Ctx, idx: u64, rng: &mut ChaCha20Rng) {
+  let t = rng.gen_range(2..=4u32);
+  let ml = *pick(rng, &[2usize, 8, 16, 31, 32, 33, 40, 64, 65, 100, 166, 200, 300]);
+  let m: Vec<u8> = if idx % 3 == 0 { (0..ml).map(|_| rng.gen_range(b'a'..=b'z')).collect() } else { rand_bytes(rng, ml) };
+  let e = crate::gen::epoch(rng);
+  let aux = rand_bytes_in(rng, 8..48);
+  let victim = match reports(rng, &m, &e, t, vec![aux.clone()]) {
+    Ok(mut r) => r.remove(0),
+    Err(er) => {
+      rec.violation("generate-failed", er, json!({}));
+      return;
+    }
+  };
+  rec.evals += 1;
+  rec.case(&("related", ml, t, idx % 3));
+  let mut related: Vec<(String, Vec<u8>)> = Vec::new();
+  for p in [1usize, 8, 16, 24, 31, 32, 33, 48, 63, 64, 65, 128, 165, 166, 167, ml.saturating_sub(1)] {
+    if p < ml {
+      let mut v = m[..p].to_vec();
+      v.extend(rand_bytes(rng, ml - p));
+      related.push((format!("same first {} bytes", p), v));
+      related.push((format!("first {} bytes only", p), m[..p].to_vec()));
+      let mut w = rand_bytes(rng, p);
+      w.extend_from_slice(&m[p..]);
+      related.push((format!("same last {} bytes", ml - p), w));
+    }
+  }
+  let mut z = m.clone();
+  z.push(0);
+  related.push(("one NUL appended".into(), z));
+  let mut z = m.clone();
+  z.extend_from_slice(b"  ");
+  related.push(("blanks appended".into(), z));
+  related.push(("upper case".into(), m.to_ascii_uppercase()));
+  related.push(("empty".into(), vec![]));
+  related.retain(|(_, v)| v != &m);
+  for (kind, m2) in related {
+    rec.ev("related_measurement_attacks");
+    let att = match reports(rng, &m2, &e, t, (0..t).map(|i| vec![i as u8; 4]).collect()) {
+      Ok(r) => r,
+      Err(_) => continue,
+    };
+    let opens = |key: &[u8]| -> bool { layout::parse_payload(&victim.msg.ciphertext.decrypt(key, "star_encrypt")) == Some((m.clone(), Some(aux.clone()))) };
+    let rp = |how: &str| json!({"how": how, "relation": kind, "threshold": t, "victim_measurement": hex(&m), "attacker_measurement": hex(&m2), "epoch": hex(&e), "victim_report": hex(&victim.bytes)});
+    // (a) the attacker's own key (t reports of ITS measurement)
+    let own: Vec<Share> = att.iter().map(|r| r.msg.share.clone()).collect();
+    if let Ok(c) = share_recover(&own) {
+      let mut k = vec![0u8; 16];
+      derive_ske_key(&c.get_message(), &e, &mut k);
+      if opens(&k) {
+        rec.violation(
+          "aux-revealed:related-measurement",
+          format!("the key of a different measurement ({}) decrypts the victim's single report", kind),
+          rp("attacker's own key"),
+        );
+        return;
+      }
+    }
+    if victim.msg.tag == att[0].msg.tag {
+      rec.violation("aux-revealed:related-measurement:same-tag", format!("a different measurement ({}) carries the victim's tag", kind), rp("tag"));
+      return;
+    }
+    // (b) the victim's share joined by t-1 (and t) attacker shares, victim first / last
+    for n_att in [t as usize - 1, t as usize] {
+      for victim_first in [true, false] {
+        let mut coll: Vec<Share> = att[..n_att].iter().map(|r| r.msg.share.clone()).collect();
+        if victim_first {
+          coll.insert(0, victim.msg.share.clone());
+        } else {
+          coll.push(victim.msg.share.clone());
+        }
+        if let Ok(c) = share_recover(&coll) {
+          let mut k = vec![0u8; 16];
+          derive_ske_key(&c.get_message(), &e, &mut k);
+          if opens(&k) {
+            rec.violation(
+              "aux-revealed:related-measurement",
+              format!("the victim's single report plus {} reports of a different measurement ({}) recover the victim's key", n_att, kind),
+              rp("joint recovery"),
+            );
+            return;
+          }
+        }
+      }
+    }
+  }
+}
+
 pub fn run(ctx: &Ctx) -> Rec {
   let mut rec = par_run(ctx, "xor", ctx.n(3000, 1_000_000), |rec, i, rng| xor_case(rec, ctx, i, rng));
   rec.merge(par_run(ctx, "window", ctx.n(400, 100_000), |rec, i, rng| window_case(rec, ctx, i, rng)));
+  rec.merge(par_run(ctx, "related", ctx.n(300, 60_000), |rec, i, rng| related_case(rec, ctx, i, rng)));
   rec
 }
